@@ -1,2 +1,3 @@
 pub mod asp;
 pub mod fol;
+pub mod task;
